@@ -365,7 +365,8 @@ def _apply_node(n, op, exe, newest=False):
     except TypeError:
         return "procraised"
     except RuntimeError as e:
-        return "locked" if "locked" in str(e) else f"exc:{type(e).__name__}"
+        # "locked" = the assignment was refused because the node is running (type + state, never the wording)
+        return "locked" if op.startswith("set") and n.running else f"exc:{type(e).__name__}"
     except Exception as e:  # noqa: BLE001
         return f"exc:{type(e).__name__}"
     return "bad-op"
